@@ -396,6 +396,25 @@ theorem scan_terminates_nul (mem : Mem) (nul : Nat) :
       simp only [lenDec, Option.map]
       rw [h]; exact ⟨_, _, rfl⟩
 
+/-- **Fuel is irrelevant.**  Whenever a call returns with some fuel, it returns the same with any larger
+    fuel — so every theorem above, stated for a fuel that is enough to scan the input, describes the
+    result of the call for *every* fuel with which it returns. -/
+theorem count_fuel_irrelevant (mem : Mem) (f g : Nat) (len : Option Nat) (pos : Pos) (L : Option Limit)
+    (r : Int) (p : Pos) (hi : Nat) (hfg : f ≤ g) (h : ncountmore mem f len pos L = .ret r p hi) :
+    ncountmore mem g len pos L = .ret r p hi ∧
+    ∀ cs t, Scans mem f len pos cs t → Scans mem g len pos cs t :=
+  ⟨ncountmore_mono mem f g len pos L r p hi hfg h, fun cs t hs => scan_mono_le mem f g _ _ (cs, t) hfg hs⟩
+
+/-- Whenever a call returns (any fuel) on an input that can be scanned (any fuel), the result is the
+    specification's. -/
+theorem count_spec_any_fuel (mem : Mem) (f F : Nat) (len : Option Nat) (pos : Pos) (L : Option Limit)
+    (cs : List Ch) (t : Tail) (hs : Scans mem F len pos cs t) (r : Int) (p : Pos) (hi : Nat)
+    (h : ncountmore mem f len pos L = .ret r p hi) :
+    r = (specRun L (graphemes cs) t pos).ret pos.bytes ∧ p = (specRun L (graphemes cs) t pos).pos := by
+  have h' := ncountmore_mono mem f (max f F) len pos L r p hi (Nat.le_max_left _ _) h
+  have hs' : Scans mem (max f F) len pos cs t := scan_mono_le mem F (max f F) _ _ (cs, t) (Nat.le_max_right _ _) hs
+  exact ret_inj hs' h'
+
 /-! ### encode, then count -/
 
 /-- **Round trip.**  For every code point below `0x200000` that is not a C0/C1 control or DEL:
